@@ -22,7 +22,8 @@ structure Srv where
   append : Bool := false        -- `flags & O_APPEND`
   hopen : Bool := true          -- handle still in `file_table`
   truncZero : Bool := false     -- `set_file_attr` re-opens with "w+" (zeroes the file) instead of truncating
-  didRead : Bool := false       -- a READ was served: the server's buffered reader may hold read-ahead
+  rbuffered : Bool := true      -- the server opened the file with CPython buffering (StubSFTPServer does)
+  didRead : Bool := false       -- a READ was served by a buffered server-side reader: it may hold read-ahead
   stale : Bool := false         -- … and the file was truncated behind it
   deriving Repr
 
@@ -36,7 +37,7 @@ def srvRead (s : Srv) (off len : Nat) : Srv × Bytes :=
   let t := s.tell.getD s.fpos
   let (fpos, t) := if off ≠ t then (off, off) else (s.fpos, t)
   let d := (s.content.drop fpos).take len
-  ({ s with fpos := fpos + d.length, tell := some (t + d.length), didRead := true }, d)
+  ({ s with fpos := fpos + d.length, tell := some (t + d.length), didRead := s.rbuffered }, d)
 
 /-- `SFTPHandle.write(offset, data)`.  In append mode nothing seeks (the OS appends and leaves the position
     at EOF); the cached offset `__tell` is dropped (it was advanced by `len(data)` before the fix). -/
@@ -103,8 +104,8 @@ def close (o : Ops Srv) (f : BF Srv) : Res Srv Unit :=
 /-! ## opening: `SFTPClient.open` flags → `_convert_pflags` → `StubSFTPServer.open` → `SFTPFile.__init__` -/
 
 /-- `fs` = the file's content if it exists.  Result: the open file, or `none` if OPEN failed. -/
-def sftpOpen (fs : Option Bytes) (mode : List Char) (bufsize : Int) (dflt : Nat) (truncZero : Bool) :
-    Option (BF Srv) :=
+def sftpOpen (fs : Option Bytes) (mode : List Char) (bufsize : Int) (dflt : Nat) (truncZero : Bool)
+    (rbuffered : Bool := true) : Option (BF Srv) :=
   let has (c : Char) := mode.contains c
   let create := has 'w' || has 'a' || has 'x'
   let excl := has 'x'
@@ -115,7 +116,7 @@ def sftpOpen (fs : Option Bytes) (mode : List Char) (bufsize : Int) (dflt : Nat)
   | some _, _, true => none                -- EEXIST
   | _, _, _ =>
     let c := if trunc then [] else fs.getD []
-    let s : Srv := { content := c, append := app, truncZero := truncZero }
+    let s : Srv := { content := c, append := app, truncZero := truncZero, rbuffered := rbuffered }
     let f0 : BF Srv := { s := s, dflt := dflt, bufsize := dflt }
     some (setMode f0 mode bufsize (getSize s))
 
